@@ -12,6 +12,9 @@ ID = 'C13'
 THEOREMS = [
     'Sourcer.C13_late_binding',
     'Sourcer.C13_super',
+    'Sourcer.C13_flattening',
+    'Sourcer.C13_flattened_name',
+    'Sourcer.C13_rule_numbering_is_immaterial',
     'Sourcer.C01_codegen_refines_peg',
     'Tie.implFlags_sound',
 ]
